@@ -7,7 +7,7 @@
    LL(1) parser), [doc_* bs] is the intended document: rows grouped by runs of equal fingerprint. *)
 From Coq Require Import List NArith ZArith Bool Ascii String.
 From Qryn Require Import model.GoFloat model.JsonStream proofs.JsonStreamProofs proofs.JsonSpliceProofs
-  proofs.GoFloatProofs proofs.JsonNumProofs proofs.JsonSeriesProofs.
+  proofs.GoFloatProofs proofs.JsonNumProofs proofs.JsonSeriesProofs proofs.GoMarshalProofs.
 Import ListNotations.
 Open Scope string_scope.
 Open Scope list_scope.
@@ -335,3 +335,55 @@ Print Assumptions doc_wellformed_series_reencoded.
 Example series_reencoded_met :
   render (enc_series [[("a", String (chr 1) "")]; []]) = "{""status"":""success"", ""data"":[{""a"":""\u0001""},{}]}".
 Proof. vm_compute. reflexivity. Qed.
+
+(* ------------------------------------------------------------------------------------------ *)
+(* tempo Trace (JSON) and Search with the json.Marshal-ed struct values modelled as field walks (names, order, omitempty,
+   nil slice = null; strings through encoding/json's escaper, integers %d, float64 in encoding/json's layout): the
+   hypothesis "every spliced piece is a JSON value" of doc_wellformed_trace / _search is discharged.
+   [tokensJ_of v] is what json.Marshal writes for the value v, [sanitize_doc v] what a reader decodes. *)
+
+(* generic: whatever values are marshalled between the hand-written chunks, if their numbers are JSON numbers *)
+Theorem doc_wellformed_search_marshalled : forall vs, forallb nums_ok vs = true ->
+  parse_bytes (render (enc_search vs)) = Some (doc_search_of (map sanitize_doc vs)).
+Proof. exact search_marshalled_bytes. Qed.
+Print Assumptions doc_wellformed_search_marshalled.
+
+Theorem doc_wellformed_trace_marshalled : forall vs, forallb nums_ok vs = true ->
+  parse_bytes (render (enc_trace vs)) = Some (doc_trace_of (map sanitize_doc vs)).
+Proof. exact trace_marshalled_bytes. Qed.
+Print Assumptions doc_wellformed_trace_marshalled.
+
+(* Search by tags: EVERY list of model.TraceResponse values (any bytes in the names, any int64) *)
+Theorem doc_wellformed_search_tags : forall ts,
+  parse_bytes (render (enc_search (map trace_response_val ts))) =
+  Some (doc_search_of (map sanitize_doc (map trace_response_val ts))).
+Proof. exact search_tags_bytes. Qed.
+Print Assumptions doc_wellformed_search_tags.
+
+(* Search by TraceQL: every list of model.TraceInfo values (nil or non-nil span sets, spans, attributes) whose
+   durationMs is finite; json.Marshal refuses NaN / infinities and the handler ignores that error (see design.d) *)
+Theorem doc_wellformed_search_traceql : forall ts, forallb (fun t => fl_finite (fl_of_bits (ti_dur t))) ts = true ->
+  parse_bytes (render (enc_search (map trace_info_val ts))) =
+  Some (doc_search_of (map sanitize_doc (map trace_info_val ts))).
+Proof. exact search_traceql_bytes. Qed.
+Print Assumptions doc_wellformed_search_traceql.
+Example traceql_guard_met :
+  let set := {| ss_spans := None; ss_matched := 1 |} in
+  let t := {| ti_id := "ab"; ti_svc := String (chr 255) "<"; ti_name := ""; ti_start := "17"; ti_dur := 4502148214488346440;
+              ti_set := set; ti_sets := None |} in
+  forallb (fun t => fl_finite (fl_of_bits (ti_dur t))) [t] = true /\
+  render (tokensJ_of (trace_info_val t)) =
+  "{""traceID"":""ab"",""rootServiceName"":""\ufffd\u003c"",""rootTraceName"":"""",""startTimeUnixNano"":""17"",""durationMs"":1e-7,""spanSet"":{""spans"":null,""matched"":1},""spanSets"":null}".
+Proof. split; vm_compute; reflexivity. Qed.
+
+(* Trace: EVERY list of model.JSONSpan values (parentSpanId and status present or omitted, any attributes and events) *)
+Theorem doc_wellformed_trace_spans : forall ss,
+  parse_bytes (render (enc_trace (map jspan_val ss))) = Some (doc_trace_of (map sanitize_doc (map jspan_val ss))).
+Proof. exact trace_spans_bytes. Qed.
+Print Assumptions doc_wellformed_trace_spans.
+
+(* encoding/json prints every finite float64 as a JSON number *)
+Theorem gojson_float_is_number : forall bits, fl_finite (fl_of_bits bits) = true ->
+  num_ok (gojson_float_text (fl_of_bits bits)) = true.
+Proof. exact gojson_float_text_num_ok. Qed.
+Print Assumptions gojson_float_is_number.
